@@ -248,7 +248,9 @@ func (ex *Exec) unop(fr *Frame, st *State, x *ssa.UnOp) Val {
 		if x.CommaOk {
 			return &TupleV{E: []Val{ex.freshVal(st, x.Type().(*types.Tuple).At(0).Type(), "recv"), ex.freshTerm("recvok", SBool, false)}}
 		}
-		return ex.freshVal(st, x.Type(), "recv")
+		rv := ex.freshVal(st, x.Type(), "recv")
+		ex.noteRecv(st, x.Type(), rv)
+		return rv
 	}
 	return ex.freshVal(st, x.Type(), "unop")
 }
@@ -810,4 +812,16 @@ func foldBV(op token.Token, x, y *Term, signed bool) *Term {
 
 func errConstSym(t types.Type, val string) *Term {
 	return &Term{S: "econst!" + sanitizeName(shortType(t)) + "!" + sanitizeName(val), Sort: SErr}
+}
+
+// noteRecv: ghost lastRecvErr (when a spec declares it for the property in force) holds the value most recently
+// received from a channel of errors, so that a contract can say "the result is what the action sent".
+func (ex *Exec) noteRecv(st *State, t types.Type, v Val) {
+	g, ok := ex.lib.Ghosts["lastRecvErr"]
+	if !ok || !tagActive(g.Tags, ex.prop) || !isErrorType(t) {
+		return
+	}
+	if iv, ok := v.(*IfaceV); ok {
+		st.ghost["lastRecvErr"] = ex.ifaceTerm(st, iv, SErr)
+	}
 }
